@@ -1,6 +1,7 @@
 package dbsim
 
 import (
+	"github.com/safing/portbase/runtime"
 	"errors"
 	"fmt"
 	"math/rand/v2"
@@ -20,6 +21,7 @@ import (
 type C14Plan struct {
 	Backend string     `json:"backend"`
 	Shadow  bool       `json:"shadow,omitempty"`
+	RegLate bool       `json:"reg_late,omitempty"` // the injected database is a runtime registry whose provider was registered before it was injected
 	Subs    []SubSpec  `json:"subs,omitempty"`
 	Hooks   []HookSpec `json:"hooks,omitempty"`
 	Writers [][]WOp    `json:"writers"`
@@ -62,7 +64,7 @@ type WOp struct {
 var c14Sleep = []time.Duration{0, time.Millisecond, 5 * time.Millisecond, 30 * time.Millisecond}
 
 func genC14(rng *rand.Rand, tier string) *C14Plan {
-	p := &C14Plan{Backend: []string{"hashmap", "hashmap", "fstree", "bbolt"}[rng.IntN(4)], Shadow: rng.IntN(2) == 0}
+	p := &C14Plan{Backend: []string{"hashmap", "hashmap", "fstree", "bbolt"}[rng.IntN(4)], Shadow: rng.IntN(2) == 0, RegLate: rng.IntN(4) == 0}
 	hookActions := rng.IntN(3) == 0
 	ns := 1 + rng.IntN(4)
 	if hookActions {
@@ -258,6 +260,8 @@ type c14State struct {
 	writes []*wrec
 	gets   []*wrec
 	injCtl *database.Controller
+	push       func(record.Record)
+	pushPrefix string
 }
 
 func execC14(p *C14Plan, rc *simkit.RunCtx) {
@@ -273,10 +277,27 @@ func execC14(p *C14Plan, rc *simkit.RunCtx) {
 		rc.Fail("C14.harness", "register injected database", err.Error())
 		return
 	}
-	s.injCtl, err = database.InjectDatabase("injdb", &injStorage{})
-	if err != nil {
-		rc.Fail("C14.harness", "inject database", err.Error())
-		return
+	if p.RegLate {
+		reg := runtime.NewRegistry()
+		push, rerr := reg.Register("vals/", runtime.SimpleValueGetterFunc(func(string) ([]record.Record, error) { return nil, nil }))
+		if rerr != nil {
+			rc.Fail("C14.harness", "register runtime provider", rerr.Error())
+			return
+		}
+		if err := reg.InjectAsDatabase("injdb"); err != nil {
+			rc.Fail("C14.harness", "inject runtime registry", err.Error())
+			return
+		}
+		s.push = func(r record.Record) { push(r) }
+		s.pushPrefix = "vals/"
+		rc.Probe("registry-provider-registered-before-injection")
+	} else {
+		s.injCtl, err = database.InjectDatabase("injdb", &injStorage{})
+		if err != nil {
+			rc.Fail("C14.harness", "inject database", err.Error())
+			return
+		}
+		s.push = func(r record.Record) { s.injCtl.PushUpdate(r) }
 	}
 	priv := database.NewInterface(&database.Options{Local: true, Internal: true})
 	// make sure the controller exists before subscribing
@@ -407,11 +428,11 @@ func execC14(p *C14Plan, rc *simkit.RunCtx) {
 					nonceCounter++
 					nonce := fmt.Sprintf("n%d", nonceCounter)
 					r := &Rec{N: nonce}
-					r.SetKey("injdb:" + key)
+					r.SetKey("injdb:" + s.pushPrefix + key)
 					r.CreateMeta()
 					w := &wrec{Writer: wi, Kind: "push", Key: key, ID: nonce, Injected: true, Inv: simrt.Seq()}
 					s.writes = append(s.writes, w)
-					s.injCtl.PushUpdate(r)
+					s.push(r)
 					w.Ret, w.OK = simrt.Seq(), true
 				}
 			}
@@ -526,6 +547,43 @@ func checkC14(p *C14Plan, rc *simkit.RunCtx) {
 				}
 				must = append(must, w)
 			}
+		}
+		// deletes are deliveries too: a delete made while the subscription was active, of a key all of whose earlier
+		// records the subscriber may see, shows up as (at least) one record of that key marked deleted
+		for _, w := range s.writes {
+			if w.Kind != "delete" || !w.OK || w.Inv <= ss.subRet || (ss.cancelInv != 0 && w.Ret >= ss.cancelInv) {
+				continue
+			}
+			var cands []string
+			all := true
+			for _, pw := range s.writes {
+				if pw.Kind == "put" && pw.OK && pw.Key == w.Key && pw.Inv < w.Ret {
+					cands = append(cands, pw.ID)
+					if !s.matches(ss.spec, pw) {
+						all = false
+					}
+				}
+			}
+			if len(cands) == 0 || !all {
+				continue
+			}
+			seen := false
+			for _, f := range ss.feed {
+				if !strings.HasSuffix(f.ID, "#del") || f.Seq < w.Inv {
+					continue
+				}
+				for _, c := range cands {
+					if f.ID == c+"#del" {
+						seen = true
+					}
+				}
+			}
+			if !seen {
+				rc.Fail("C14.missing-delivery", "a delete of a matching record made while the subscription was active was not delivered"+note,
+					fmt.Sprintf("subscription %d (%+v): delete of %s", si, ss.spec, w.Key))
+				return
+			}
+			rc.Probe("delete-delivery-checked")
 		}
 		sort.Slice(must, func(i, j int) bool { return must[i].Inv < must[j].Inv })
 		for i := range must {
